@@ -448,7 +448,7 @@ func (e *PPA) enter(fr *Frame, from, b *ssa.BasicBlock, st *State, k cont) {
 }
 
 var noReturnCallees = map[string]bool{
-	"os.Exit": true,
+	"os.Exit":                      true,
 	"github.com/golang/glog.Fatal": true, "github.com/golang/glog.Fatalf": true, "github.com/golang/glog.Fatalln": true,
 	"github.com/golang/glog.Exit": true, "github.com/golang/glog.Exitf": true, "github.com/golang/glog.Exitln": true,
 	"log.Fatal": true, "log.Fatalf": true, "log.Fatalln": true,
